@@ -69,6 +69,12 @@ MISSED = {
     # round 5 (letter i)
     "C04-i": "no case wrote more than six names into one encoder, so the per-message budgets of the name compressor (64 stored candidates, 120 names written with compression) were never used up: new sub-property `wire_many_names` writes 40-320 related names (fresh leading labels, letter case chosen per name) into one encoder and reads each back at its offset",
     "C13-i": "transfer requests always asked for AXFR and always met a SqliteZoneHandler: new enumerated sub-property `transfer_questions_all_handlers` sends AXFR and IXFR questions (with and without the client's SOA) unsigned, validly signed, wrongly keyed and stale to an InMemoryZoneHandler and to a SqliteZoneHandler under Deny / AllowSigned / AllowAll through the catalog; two or more answer RRs only where the policy admits the transfer",
+    # round 6 (letter j)
+    "C04-j": "C04 only wrote bare names and owner names; a name inside RDATA goes through a per-type choice of name encoding: new sub-property `wire_rdata_names` writes NS, CNAME, PTR, MX, SOA, SRV, NAPTR and ANAME records the ordinary way at some message offset (alone or after an equal record) and compares owner and RDATA names octet for octet",
+    "C12-j": "apart from the private-use code every generated type was one of A, TXT, NS, CNAME, SOA: DS (type 43; ordinary data to RFC 2136, and RFC 4035 2.5 admits only RRSIG, NSEC and KEY beside a CNAME) joined the type universe of initial zones, prerequisites and updates",
+    "C08-j": "forged answers held one RRset; the validator's choice among *several* wildcard RRSIGs in one answer section was never exercised: new sub-property `sound_replayed_expansion_e2e` re-owns the genuine RRset + RRSIG of a wildcard `*.X` to a query name below X whose true answer for that type is negative, beside (before or after) the honest expansion of the closer wildcard for another type and with every NSEC of the chain in the authority section; accepted cases are attributed to the two recorded validator defects only where the zone has no wildcard between X and the query name (resp. the name lies below a `*` node)",
+    "C14-j": "every generated update RR was one the live server either applies or refuses before it writes: 1 history in 16 now has a message ending with a class-ANY, TTL-0 RR of type NULL that carries RDATA, which the prescan lets through; the journal written while handling it must remain recoverable",
+    "C15-j": "the TtlConfig always came out of its serde form, where a type occurs once: 2 histories in 5 now build it from the default bounds plus `with_query_type_ttl_bounds` per type, half of them giving every type other bounds first and the real ones afterwards (the rustdoc says 'Override')",
 }
 
 # seeds that stopped violating their property because of a later `fix:` commit in /repo
